@@ -183,8 +183,16 @@ func (av arrayValue) PropertyValue(iv Value) Value {
 func (mv mapValue) Contains(iv Value) bool {
 	mr := reflect.ValueOf(mv.value)
 	ir := reflect.ValueOf(iv.Interface())
-	if ir.IsValid() && mr.Type().Key() == ir.Type() {
+	if !ir.IsValid() {
+		return false
+	}
+	kt := mr.Type().Key()
+	switch {
+	case kt == ir.Type():
 		return mr.MapIndex(ir).IsValid()
+	case kt.Kind() == reflect.String && ir.Kind() == reflect.String:
+		// one or both are of a named string type
+		return mr.MapIndex(ir.Convert(kt)).IsValid()
 	}
 	return false
 }
